@@ -11,14 +11,27 @@ Record case := mk {
   c_trace : list (outcome * tree * tree)
 }.
 
+(** Dicts are compared as mappings (same keys and values at every depth, key
+    order ignored): the property speaks of what is stored where, and the order of
+    a merged view depends on incidental insertion order inside the levels.
+    Order is kept only where an operation's RESULT depends on it: [popitem]
+    pops the last key in iteration order, so the popped key must be the model's
+    (a change of insertion order is observable there); [keys()] is compared as a
+    set, as in the specification. *)
+Definition view_eqb (a b : tree) : bool := dict_equiv a b && dict_equiv b a.
+
+Definition keys_eqb (a b : list string) : bool :=
+  Nat.eqb (List.length a) (List.length b) && forallb (fun k => mem k b) a &&
+  forallb (fun k => mem k a) b.
+
 Definition outcome_eqb (a b : outcome) : bool :=
   match a, b with
   | ONone, ONone => true
-  | OVal x, OVal y => tree_eqb x y
-  | OPair k x, OPair k' y => String.eqb k k' && tree_eqb x y
+  | OVal x, OVal y => view_eqb x y
+  | OPair k x, OPair k' y => String.eqb k k' && view_eqb x y
   | OBool x, OBool y => Bool.eqb x y
   | ONat x, ONat y => Nat.eqb x y
-  | OKeys x, OKeys y => list_eqb String.eqb x y
+  | OKeys x, OKeys y => keys_eqb x y
   | OErr x, OErr y => err_eqb x y
   | _, _ => false
   end.
@@ -26,7 +39,7 @@ Definition outcome_eqb (a b : outcome) : bool :=
 Definition step_eqb (m : outcome * dict * tree) (o : outcome * tree * tree) : bool :=
   let '(mo, mc, me) := m in
   let '(oo, ov, oe) := o in
-  outcome_eqb mo oo && tree_eqb (Node mc) ov && dict_equiv me oe && dict_equiv oe me.
+  outcome_eqb mo oo && view_eqb (Node mc) ov && view_eqb me oe.
 
 Fixpoint all2 {A B} (f : A -> B -> bool) (l1 : list A) (l2 : list B) : bool :=
   match l1, l2 with
@@ -39,7 +52,7 @@ Definition corr (c : case) : bool :=
   match start (c_fs c) (c_init c), c_view0 c with
   | Err e, Err e' => err_eqb e e'
   | Ok c0, Ok v0 =>
-      tree_eqb (Node (c_cache c0)) v0 &&
+      view_eqb (Node (c_cache c0)) v0 &&
       all2 step_eqb (snd (srun (c_fs c) (sstart c0) (c_ops c))) (c_trace c)
   | _, _ => false
   end.
